@@ -289,6 +289,17 @@ func checkC19(c C19Case) error {
 		if l != strconv.Itoa(len(want)) {
 			return fmt.Errorf("length of merge = %s, want %d", l, len(want))
 		}
+		// a second merge of the same left operand does not disturb the result of the first
+		// (nor the operand): both results are concatenations
+		two, err := evalText("{% set a = x|merge(y) %}{% set b = x|merge(['second', 'more']) %}{% set c = x|merge(x) %}{{ a|json_encode }}#{{ b|json_encode }}#{{ x|json_encode }}#{{ a|json_encode }}", ctx)
+		if err != nil {
+			return err
+		}
+		parts := strings.Split(two, "#")
+		wantB := append(append([]interface{}{}, xe...), "second", "more")
+		if len(parts) != 4 || parts[0] != showJ(want) || parts[3] != showJ(want) || parts[1] != showJ(wantB) || parts[2] != showJ(append([]interface{}{}, xe...)) {
+			return fmt.Errorf("two merges of the same list: a = x|merge(y), b = x|merge(['second','more']), then x and a again print %s; want %s#%s#%s#%s", two, showJ(want), showJ(wantB), showJ(append([]interface{}{}, xe...)), showJ(want))
+		}
 	case "mergemap":
 		got, err := evalJSON("x|merge(y)", ctx)
 		if err != nil {
@@ -443,7 +454,7 @@ func c19Tricky(x *E) bool {
 	return false
 }
 
-const c19Rule = "per law (idempotence of upper/lower/trim/capitalize; reverse involution; sort = ordered permutation; length = for-iterations = what first/last/slice see; join/split round trip; list merge = concatenation; map merge = later wins + keys once; slice index rules) inputs of every supported type: strings (ASCII, multi-byte, special-casing letters, named string type), untyped lists, []int, []string, []float64, [3]int arrays, untyped and typed maps; slice arguments in [-(n+2), n+2] and omitted; non-trivial = multi-byte string, typed slice/map, negative/out-of-range/omitted argument or empty input; distinct by (law, input, arguments)"
+const c19Rule = "per law (idempotence of upper/lower/trim/capitalize; reverse involution; sort = ordered permutation; length = for-iterations = what first/last/slice see; join/split round trip; list merge = concatenation, also for two merges of the same operand (slices with spare capacity); map merge = later wins + keys once; slice index rules) inputs of every supported type: strings (ASCII, multi-byte, special-casing letters, named string type), untyped lists, []int, []string, []float64, [3]int arrays, untyped and typed maps; slice arguments in [-(n+2), n+2] and omitted; non-trivial = multi-byte string, typed slice/map, negative/out-of-range/omitted argument or empty input; distinct by (law, input, arguments)"
 
 func TestC19Laws(t *testing.T) {
 	r := NewRec(t, "C19", c19Rule)
@@ -483,10 +494,10 @@ func TestC19Laws(t *testing.T) {
 		case "mergemap":
 			c.X = genMapDesc(rt, 0, "X")
 			c.Y = genMapDesc(rt, 0, "Y")
-			if c.X.M == "map[int]string" || c.X.M == "map[iface]" {
+			if c.X.M == "map[int]string" || c.X.M == "map[iface]" || c.X.M == "map[int64]string" || c.X.M == "map[uint64]string" {
 				c.X.M = ""
 			}
-			if c.Y.M == "map[int]string" || c.Y.M == "map[iface]" {
+			if c.Y.M == "map[int]string" || c.Y.M == "map[iface]" || c.Y.M == "map[int64]string" || c.Y.M == "map[uint64]string" {
 				c.Y.M = ""
 			}
 		case "slice":
